@@ -20,7 +20,9 @@ from pyvc.interp import Obligation
 from pyvc import spec as S
 from pyvc.libspec.core import LIB as _CORE
 from pyvc.contracts import *
-from contracts import specns, cython_kmers, py_seq, kmers_calc
+from contracts import specns, cython_kmers, py_seq, kmers_calc, fileio
+from contracts.fileio import IO, SQ
+from pyvc.libspec import fio as _fio, conc as _conc
 from contracts.kmers_calc import KM, CA
 
 LIB = dict(_CORE)
@@ -41,7 +43,23 @@ class _PE:
 PE = _PE()
 
 
-def _ob(name, hyps, goal, **meta):
+_OPAQUE = {}
+
+
+def _opaque(t, funs):
+	"""t with the recursive spec functions in `funs` replaced by uninterpreted symbols: what is proved without a definition
+	holds for every interpretation, in particular the defined one (keeps the solver from unfolding definitions the step does not need)"""
+	for f in funs:
+		if f.name() not in _OPAQUE:
+			_OPAQUE[f.name()] = z3.Function(f.name() + '_opaque', *[f.domain(i) for i in range(f.arity())], f.range())
+		g = _OPAQUE[f.name()]
+		t = z3.substitute_funs(t, (f, g(*[z3.Var(i, f.domain(i)) for i in range(f.arity())])))
+	return t
+
+
+def _ob(name, hyps, goal, opaque=(), **meta):
+	if opaque:
+		hyps, goal = [_opaque(h, opaque) for h in hyps], _opaque(goal, opaque)
 	return Obligation(f'C06/lemma/{name}', list(hyps), goal, meta)
 
 
@@ -70,7 +88,7 @@ def _defs(ks, k, P, a, positions_f=(), positions_r=()):
 	L = P.length
 	U = S.uparr(a.arr)
 	jj = z3.Int(fresh_name('jj'))
-	out = [S.AXIOMS['uparr']()]
+	out = []
 	for p in positions_f:
 		out.append(S.occ(U, 0, P.arr, 0, L, p) == z3.ForAll([jj], z3.Implies(z3.And(jj >= 0, jj < L), z3.Select(U, p + jj) == z3.Select(P.arr, jj))))
 		out.append(truth(specns.reveal_k(PE, ks, a, p, False)))
@@ -98,6 +116,14 @@ def _sig(ks, a, x):
 
 
 def lemmas(tier):
+	S.CANON_BOUND = True
+	try:
+		return _lemmas(tier)
+	finally:
+		S.CANON_BOUND = False
+
+
+def _lemmas(tier):
 	out = []
 	reset_names()
 	ks, k, P, wf = _kspec()
@@ -148,7 +174,7 @@ def lemmas(tier):
 	               z3.Select(Bv, (qq - k) + k - 1 - t) == S.comp(z3.Select(A, (p + L) + t))))
 	out.append(_ob('rc/forward-to-reverse', wf + tya + tyb + [b.length == n] + _defs(ks, k, P, a, positions_f=[p]) + _defs(ks, k, P, b, positions_r=[qq]) +
 	               [ENC(A, p + L, Bv, qq - k), z3.Implies(z3.And(*pos_f, occ_body(UA, p)), occrc_body(UB, qq)), z3.Implies(z3.And(*pos_f), window(A, p + L, Bv, qq - k))],
-	               z3.Implies(_F(ks, k, P, a, x, p), _R(ks, k, P, b, x, qq))))
+	               z3.Implies(_F(ks, k, P, a, x, p), _R(ks, k, P, b, x, qq)), opaque=(S.enc, S.encrc, S.pow4)))
 	# reverse match of a at q  ->  forward match of b at pp = n - q - L
 	pp = n - q - L
 	pos_r = [q >= k, q + L <= n, L >= 1, k >= 1, b.length == n]
@@ -158,7 +184,7 @@ def lemmas(tier):
 	               z3.Select(A, (q - k) + k - 1 - t) == S.comp(z3.Select(Bv, (pp + L) + t))))
 	out.append(_ob('rc/reverse-to-forward', wf + tya + tyb + [b.length == n] + _defs(ks, k, P, a, positions_r=[q]) + _defs(ks, k, P, b, positions_f=[pp]) +
 	               [ENC2(Bv, pp + L, A, q - k), z3.Implies(z3.And(*pos_r, occrc_body(UA, q)), occ_body(UB, pp)), z3.Implies(z3.And(*pos_r), window(Bv, pp + L, A, q - k))],
-	               z3.Implies(_R(ks, k, P, a, x, q), _F(ks, k, P, b, x, pp))))
+	               z3.Implies(_R(ks, k, P, a, x, q), _F(ks, k, P, b, x, pp)), opaque=(S.enc, S.encrc, S.pow4)))
 	# RC is an involution on byte strings, so the two statements also hold with a and b exchanged
 	out.append(_ob('rc/involution', tya + tyb + [isrc], isrc_back))
 	# assembly: sig(a, x) <=> sig(b, x)
@@ -174,26 +200,39 @@ def lemmas(tier):
 	out.append(_ob('case/allnuc', [k >= 1, same_o], S.allnuc(Bv, o, k) == S.allnuc(A, o, k)))
 	CASE = lambda oo: z3.Implies(z3.ForAll([t], z3.Implies(z3.And(t >= 0, t < k), S.up(z3.Select(Bv, oo + t)) == S.up(z3.Select(A, oo + t)))),
 		z3.And(S.enc(Bv, oo, k) == S.enc(A, oo, k), S.encrc(Bv, oo, k, k) == S.encrc(A, oo, k, k), S.allnuc(Bv, oo, k) == S.allnuc(A, oo, k)))
-	cbase = wf + tya + tyb + [samecase]
-	out.append(_ob('case/forward', cbase + _defs(ks, k, P, a, positions_f=[p]) + _defs(ks, k, P, b, positions_f=[p]) + [CASE(p + L)],
-	               _F(ks, k, P, a, x, p) == _F(ks, k, P, b, x, p)))
-	out.append(_ob('case/reverse', cbase + _defs(ks, k, P, a, positions_r=[q]) + _defs(ks, k, P, b, positions_r=[q]) + [CASE(q - k)],
-	               _R(ks, k, P, a, x, q) == _R(ks, k, P, b, x, q)))
+	upeq = z3.ForAll([j], z3.Implies(z3.And(j >= 0, j < n), z3.Select(UB, j) == z3.Select(UA, j)))
+	out.append(_ob('case/upper-equal', tya + tyb + [b.length == n, j >= 0, j < n, inst(samecase.arg(1), j), upax], z3.Select(UB, j) == z3.Select(UA, j)))
+	win = lambda oo: z3.ForAll([t], z3.Implies(z3.And(t >= 0, t < k), S.up(z3.Select(Bv, oo + t)) == S.up(z3.Select(A, oo + t))))
+	CASE = lambda oo: z3.Implies(win(oo), z3.And(S.enc(Bv, oo, k) == S.enc(A, oo, k), S.encrc(Bv, oo, k, k) == S.encrc(A, oo, k, k), S.allnuc(Bv, oo, k) == S.allnuc(A, oo, k)))
+	out.append(_ob('case/window', tya + tyb + [b.length == n, o >= 0, o + k <= n, t >= 0, t < k, inst(samecase.arg(1), o + t)],
+	               S.up(z3.Select(Bv, o + t)) == S.up(z3.Select(A, o + t))))
+	WIN = lambda oo: z3.Implies(z3.And(oo >= 0, oo + k <= n), win(oo))
+	eqwin = lambda pos: z3.ForAll([jj], z3.Implies(z3.And(jj >= 0, jj < L), z3.Select(UB, pos + jj) == z3.Select(UA, pos + jj)))
+	out.append(_ob('case/prefix-window', [b.length == n, o >= 0, o + L <= n, jj >= 0, jj < L, inst(upeq, o + jj)], z3.Select(UB, o + jj) == z3.Select(UA, o + jj)))
+	occeq = lambda pos: z3.And(occ_body(UA, pos) == occ_body(UB, pos), occrc_body(UA, pos) == occrc_body(UB, pos))
+	out.append(_ob('case/occ-equal', [L >= 1, eqwin(o)], occeq(o)))
+	OCCEQ = lambda pos: z3.Implies(z3.And(pos >= 0, pos + L <= n), occeq(pos))
+	cbase = wf + tya + tyb + [b.length == n]
+	out.append(_ob('case/forward', cbase + _defs(ks, k, P, a, positions_f=[p]) + _defs(ks, k, P, b, positions_f=[p]) + [CASE(p + L), WIN(p + L), OCCEQ(p)],
+	               _F(ks, k, P, a, x, p) == _F(ks, k, P, b, x, p), opaque=(S.enc, S.encrc, S.pow4)))
+	out.append(_ob('case/reverse', cbase + _defs(ks, k, P, a, positions_r=[q]) + _defs(ks, k, P, b, positions_r=[q]) + [CASE(a.off + (q + L - 1) - L - k + 1), WIN(a.off + (q + L - 1) - L - k + 1), OCCEQ(q)],
+	               _R(ks, k, P, a, x, q) == _R(ks, k, P, b, x, q), opaque=(S.enc, S.encrc, S.pow4)))
 	out.append(_ob('case/signature-invariant', wf + [b.length == n,
 	               z3.ForAll([p], _F(ks, k, P, a, x, p) == _F(ks, k, P, b, x, p)), z3.ForAll([q], _R(ks, k, P, a, x, q) == _R(ks, k, P, b, x, q))],
 	               _sig(ks, a, x) == _sig(ks, b, x)))
 
-	# ---- (4) contig order / per-contig variants: sigany over signature-equivalent rearrangements -----------------------
+	# ---- (4) contig order / per-contig variants: the union over signature-equivalent rearrangements -------------------------
+	# proved for an ARBITRARY predicate PHI(contig, x) in place of sig(kmerspec, contig, x): sigany(seqs, x) = exists j. PHI(seqs[j], x)
 	TS = TSeq(TArr(None, 'bytes'))
 	G, H = TS.fresh('G'), TS.fresh('H')
+	PHI = z3.Function('PHI', TS.T.sort, I, B)
 	i, i2 = z3.Ints('i i2')
-	sigof = lambda seqs, idx, xx: truth(specns.sig(PE, ks, seqs.at(idx), SInt(xx)))
 	y = z3.Int('y')
+	el = lambda X, idx: z3.Select(X.arr, idx)
 	covers = lambda X, Y: z3.ForAll([i], z3.Implies(z3.And(i >= 0, i < X.length),
-		z3.Exists([i2], z3.And(i2 >= 0, i2 < Y.length, z3.ForAll([y], sigof(Y, i2, y) == sigof(X, i, y))))))
-	anyG = truth(specns.sigany(PE, ks, G, SInt(x)))
-	anyH = truth(specns.sigany(PE, ks, H, SInt(x)))
-	out.append(_ob('perm/union-invariant', [G.length >= 0, H.length >= 0, covers(G, H), covers(H, G)], anyG == anyH))
+		z3.Exists([i2], z3.And(i2 >= 0, i2 < Y.length, z3.ForAll([y], PHI(el(Y, i2), y) == PHI(el(X, i), y))))))
+	anyof = lambda X, xx: z3.Exists([i], z3.And(i >= 0, i < X.length, PHI(el(X, i), xx)))
+	out.append(_ob('perm/union-invariant', [G.length >= 0, H.length >= 0, covers(G, H), covers(H, G)], anyof(G, x) == anyof(H, x)))
 
 	# ---- (5) canonical form: strictly increasing arrays with the same members are the same array ---------------------
 	r1, r2 = SArr.fresh('r1', None, 'ndarray'), SArr.fresh('r2', None, 'ndarray')
@@ -203,25 +242,43 @@ def lemmas(tier):
 	same = z3.ForAll([y], mem(r1, y) == mem(r2, y))
 	ih = z3.ForAll([i], z3.Implies(z3.And(i >= 0, i < j), z3.Select(r1.arr, i) == z3.Select(r2.arr, i)))
 	out.append(_ob('canon/element-step', [n1 >= 0, n2 >= 0, inc(r1), inc(r2), same, j >= 0, j < n1, j < n2, ih], z3.Select(r1.arr, j) == z3.Select(r2.arr, j)))
-	out.append(_ob('canon/length', [n1 >= 0, n2 >= 0, inc(r1), inc(r2), same,
-	               z3.ForAll([i], z3.Implies(z3.And(i >= 0, i < n1, i < n2), z3.Select(r1.arr, i) == z3.Select(r2.arr, i)))], n1 == n2))
+	pref = z3.ForAll([i], z3.Implies(z3.And(i >= 0, i < n1, i < n2), z3.Select(r1.arr, i) == z3.Select(r2.arr, i)))
+	# if r2 were longer, its element number n1 would have to occur in r1, i.e. earlier in r2 (and symmetrically)
+	out.append(_ob('canon/length/not-shorter', [n1 >= 0, n2 >= 0, inc(r1), inc(r2), inst(same, z3.Select(r2.arr, n1)), pref], z3.Not(n1 < n2)))
+	out.append(_ob('canon/length/not-longer', [n1 >= 0, n2 >= 0, inc(r1), inc(r2), inst(same, z3.Select(r1.arr, n2)), pref], z3.Not(n2 < n1)))
 
 	# ---- (6) the theorem over the calc_signature postcondition (default accumulator: nothing there before) --------------
-	post = lambda r, seqs: [r.length >= 0, inc(r),
-		z3.ForAll([i], z3.Implies(z3.And(i >= 0, i < r.length), truth(specns.sigany(PE, ks, seqs, SInt(z3.Select(r.arr, i)))))),
-		z3.ForAll([y], z3.Implies(truth(specns.sigany(PE, ks, seqs, SInt(y))), mem(r, y)))]
-	union_inv = z3.ForAll([y], truth(specns.sigany(PE, ks, G, SInt(y))) == truth(specns.sigany(PE, ks, H, SInt(y))))
-	out.append(_ob('theorem/same-members', post(r1, G) + post(r2, H) + [union_inv], same))
+	# ANYG / ANYH stand for sigany(kmerspec, G, .) and sigany(kmerspec, H, .)
+	ANYG, ANYH = z3.Function('ANYG', I, B), z3.Function('ANYH', I, B)
+	post = lambda r, ANY: [r.length >= 0, inc(r),
+		z3.ForAll([i], z3.Implies(z3.And(i >= 0, i < r.length), ANY(z3.Select(r.arr, i)))),
+		z3.ForAll([y], z3.Implies(ANY(y), mem(r, y)))]
+	union_inv = z3.ForAll([y], ANYG(y) == ANYH(y))
+	out.append(_ob('theorem/same-members', post(r1, ANYG) + post(r2, ANYH) + [union_inv], same))
 	return out
 
 
 def targets(tier):
 	t = []
 	t.append((CA + 'calc_signature', 'list,default', {'seqs': SeqOf(Arr('bytes'), ref=True), 'accumulator': Const(None)}))
+	t.append((IO + 'guess_compression',))
+	for mode in ('rt', 'rb', 'wt', 'at'):
+		t.append((IO + '_open_auto', mode, {'mode': Const(mode), 'kwargs': {'encoding': 'ascii'} if mode == 'rt' else {}}))
+	for mode in ('rt', 'rb', 'wt', 'r', 'rtb', 'zt'):
+		for comp in ('none', 'gzip', 'auto', 'bz2'):
+			t.append((IO + 'open_compressed', f'{mode},{comp}', {'mode': Const(mode), 'compression': Const(comp), 'kwargs': {}}))
+	cf = lambda reg: (register(reg), fileio.register_calc_file(reg))
+	cf.specns = {'sig': specns.sig_opaque}     # caller level: sig is an arbitrary predicate here (its definition is used by C01 and by the lemmas)
+	t.append((CA + 'calc_file_signature', None, None, cf))
+	for comp in (None, 'none', 'gzip', 'auto'):
+		regfn = (lambda c: (lambda reg: (register(reg), fileio.register_seqfile(reg, c))))(comp)
+		t.append((SQ + 'SequenceFile.open', str(comp), {'self': fileio.SeqFileT(comp), 'mode': Const('rt'), 'kwargs': {}}, regfn))
+		t.append((SQ + 'SequenceFile.parse', str(comp), {'self': fileio.SeqFileT(comp), 'kwargs': {}}, regfn))
 	return t
 
 
 def register(reg):
+	fileio.register(reg)
 	cython_kmers.register(reg)
 	py_seq.register(reg)
 	kmers_calc.register(reg)
@@ -233,3 +290,16 @@ TRUSTED = [
 	'induction over a natural number as a proof rule: a lemma proved for 0 and from m-1 to m holds for every m (base/step obligations)',
 ]
 ASSUMPTIONS = list(TRUSTED)
+
+
+def bounded(run, run_oracle):
+	return run_oracle('C06', run.repo_root, {'op': 'bounded', 'tier': run.tier, 'seed': run.seed})
+
+
+TRUSTED = [
+	'C01 trusted base (the contract of calc_signature is re-verified here for the default accumulator; its callees by C01)',
+	'induction over a natural number as a proof rule: a lemma proved for 0 and for the step m-1 -> m holds for every m (base/step obligations); a lemma proved with an uninterpreted symbol in place of a defined function holds for the defined one',
+	'stream model (pyvc/libspec/fio.py): open() positions at 0, read(n) returns the first min(n, size) content bytes, seek(0) rewinds; GzipFile / gzip.open / TextIOWrapper / Bio.SeqIO.parse are opaque stream constructors whose meaning (decompression, decoding, FASTA parsing) is NOT modelled',
+	'BOUNDED only (labelled): invariance under line width, CRLF/LF, final newline, gzip and the extension of the file name is decided by Bio.SeqIO / gzip / TextIOWrapper, external code; covered by the bounded run of the real calc_file_signature on generated files',
+]
+ASSUMPTIONS = TRUSTED + ['sequences shorter than 2^31, 1 <= k <= 32 (C01 preconditions)', 'one sequence file per verified function (ghost records_of)']
